@@ -235,25 +235,29 @@ func vC06AttachRace(budget int) {
 	vSetPreempt(0)
 	<-done
 	vQuiesce()
+	// everything the late client was sent (a GOODBYE may precede the WELCOME
+	// when the shutdown overtakes the attach: the property does not order them)
 	welcomed, told := false, false
+drain:
 	for {
-		m, ok := <-cl.Recv()
-		if !ok {
-			told = true // transport closed
-			break
-		}
-		switch mm := m.(type) {
-		case *wamp.Welcome:
-			welcomed = true
-		case *wamp.Abort:
-			told = true
-		case *wamp.Goodbye:
-			if mm.Reason == wamp.ErrSystemShutdown {
-				told = true
+		select {
+		case m, ok := <-cl.Recv():
+			if !ok {
+				told = true // transport closed
+				break drain
 			}
-		}
-		if told {
-			break
+			switch mm := m.(type) {
+			case *wamp.Welcome:
+				welcomed = true
+			case *wamp.Abort:
+				told = true
+			case *wamp.Goodbye:
+				if mm.Reason == wamp.ErrSystemShutdown {
+					told = true
+				}
+			}
+		default:
+			break drain
 		}
 	}
 	vAssert("late-client-refused-or-shut-down", told)
